@@ -736,6 +736,16 @@ def run(ctx):
 
     run_forms_histories(ctx, cases, gt, comb_jit, next_k_array, k_array_rank, k_array_rank_jit, Mm, Nn)
 
+    # the int64 machine model of k_array_rank_jit (kArrayRankJitW): every krankjit case again, plus inputs on which the
+    # running sum really wraps around in int64 (the code is compared as is; the property says nothing there)
+    for c in [c for c in cases if c.line.startswith("C16 krankjit ")]:
+        cases.append(Case(c.line.replace("C16 krankjit ", "C16 krankjitw ", 1), c.impl, nontrivial=c.nontrivial, tag="krankw"))
+    for a in ([INTP_MAX, 5], [INTP_MAX - 3, 4, 6], [2 ** 62, 2 ** 62 + 1], [INTP_MAX, INTP_MAX], [INTP_MAX - 9, 5, 6, 7], [-5, 3, 4],
+              [INTP_MAX - 1, 2, 3037000500]):
+        r = int(k_array_rank_jit(np.array(a, dtype=np.int64)))
+        ctx.count("krankjitw:wrap-probe")
+        cases.append(Case("C16 krankjitw a=%s" % ints(a), str(r), tag="krankw"))
+
     ctx.exhaustive = True
     ctx.extra["exhaustive_scope"] = ("comb_jit N<=%d all k in [-1,N+1]; simplex m<=%d n<=%d with every point's index; "
                                      "k-subsets n<=%d; cartesian all shapes d<=%d len<=%d both orders; nearest index sampled"
